@@ -79,6 +79,15 @@ type FuncV struct {
 
 type TupleV struct{ Vals []SVal }
 
+// MapV: a map with string keys and a struct/scalar value type, modelled as an array object of values indexed by
+// keyidx(key) (an injective uninterpreted function into [0, 2^20)) plus a "#present" leaf.  Other maps stay opaque.
+type MapV struct {
+	Obj   *Object
+	IsNil *Term
+	Key   types.Type
+	Elem  types.Type
+}
+
 type OpaqueV struct { // maps, chans, unsupported
 	T     types.Type
 	Id    *Term
